@@ -1,7 +1,7 @@
 pub mod error;
 
 use std::cell::RefCell;
-use std::collections::HashMap;
+use std::collections::{HashMap, HashSet};
 use std::convert;
 use std::fmt;
 use std::io;
@@ -2412,12 +2412,10 @@ impl XmlElement {
         });
         let element_id = Some(element.borrow().id());
 
-        for (i, attribute) in value.attributes.iter().enumerate() {
+        let mut names = HashSet::new();
+        for attribute in value.attributes.iter() {
             // WFC: Unique Att Spec
-            if value.attributes[..i]
-                .iter()
-                .any(|v| v.name == attribute.name)
-            {
+            if !names.insert(&attribute.name) {
                 let (local_name, _) = attribute_name(&attribute.name);
                 return Err(error::Error::InvalidData(local_name));
             }
